@@ -151,6 +151,10 @@ pub fn find_known<'a>(known: &'a [Known], prop: &str, key: &str) -> Option<&'a K
     known.iter().find(|k| k.property == prop && glob_match(&k.key, key))
 }
 
+fn to_val<T: Serialize>(c: &T) -> serde_json::Value {
+    serde_json::to_value(c).unwrap_or_else(|_| serde_json::Value::String(serde_json::to_string(c).unwrap_or_default()))
+}
+
 pub struct Report {
     pub exit: i32,
 }
@@ -258,7 +262,7 @@ pub fn run<P: Prop>(p: &P, opts: &Opts) -> i32 {
     }
     for (n, (key, idx, detail, count)) in violations.iter().enumerate() {
         let path = format!("{replay_dir}/{:016x}.json", fnv(key));
-        let doc = json!({"property": id, "key": key, "detail": detail, "occurrences": count, "case": &cases[*idx]});
+        let doc = json!({"property": id, "key": key, "detail": detail, "occurrences": count, "case": to_val(&cases[*idx])});
         let _ = std::fs::write(&path, serde_json::to_string_pretty(&doc).unwrap());
         if n < 40 {
             println!("VIOLATION property={id} replay={path}");
@@ -278,7 +282,7 @@ pub fn run<P: Prop>(p: &P, opts: &Opts) -> i32 {
         let want = 4usize.min(n);
         for k in 0..want {
             let idx = ((opts.seed as usize).wrapping_mul(7919).wrapping_add(k * (n / want).max(1))) % n;
-            samples.push(json!({"case": &cases[idx], "outcome": results[idx].as_ref().map(|r| r.0.outcome.clone()).unwrap_or_default()}));
+            samples.push(json!({"case": to_val(&cases[idx]), "outcome": results[idx].as_ref().map(|r| r.0.outcome.clone()).unwrap_or_default()}));
         }
     }
     let exhaustive = p.exhaustive(opts.tier) && !capped;
